@@ -408,11 +408,26 @@ def run_check(mod, tier, seed):
 
     # 3b. extra obligations
     extra = []
+    coqchk_summary = None
+    if tier == "thorough" and ok_build:
+        modname = "Cassis." + mod.PROPS_FILE[:-2].replace("/", ".")
+        with CoqLock():
+            rc, out = _run(["coqchk", "-o", "-Q", ".", "Cassis", modname], COQ, 1800)
+        tail = out[out.find("CONTEXT SUMMARY"):] if "CONTEXT SUMMARY" in out else out[-1500:]
+        coqchk_summary = [l.strip() for l in tail.split("\n") if l.strip()][:40]
+        ax = re.search(r"\* Axioms:\s*(.*?)\n\s*\n\s*\*", tail + "\n\n*", flags=re.S)
+        ax_txt = ax.group(1).strip() if ax else "?"
+        allowed = set(getattr(mod, "ALLOWED_AXIOMS", ()))
+        names = [a.strip() for a in re.split(r"\s+", ax_txt) if a.strip() and a.strip() != "<none>"]
+        bad = [a for a in names if a.split(".")[-1] not in allowed and a not in allowed]
+        ok_chk = rc == 0 and "Modules were successfully checked" in out and not bad \
+            and "type-in-type: <none>" in tail and "unsafe (co)fixpoints: <none>" in tail and "positivity is assumed: <none>" in tail
+        extra.append(("coqchk -o " + modname, ok_chk, "axioms: " + ax_txt if rc == 0 else out[-800:], None))
     if hasattr(mod, "extra_checks"):
         try:
-            extra = list(mod.extra_checks({"cassis": cassis, "tier": tier, "seed": seed, "rng": rng}))
+            extra = extra + list(mod.extra_checks({"cassis": cassis, "tier": tier, "seed": seed, "rng": rng}))
         except Exception as e:  # noqa
-            extra = [("extra_checks", False, f"raised {type(e).__name__}: {e}\n{traceback.format_exc()[-800:]}", None)]
+            extra = extra + [("extra_checks", False, f"raised {type(e).__name__}: {e}\n{traceback.format_exc()[-800:]}", None)]
 
     # 4. verdict
     def fails_oracle(sc):
@@ -525,6 +540,7 @@ def run_check(mod, tier, seed):
             "input_distribution": dist,
             "oracle_failures": len(oracle_fail), "model_mismatches": len(mismatch),
             "print_assumptions": [l for l in props_out.split("\n") if l.strip()][:40],
+            "coqchk": coqchk_summary,
             "exhaustive": bool(getattr(mod, "EXHAUSTIVE", False)),
         },
         "assumptions": list(getattr(mod, "ASSUMPTIONS", [])),
